@@ -47,7 +47,7 @@ LEVEL_TEXT = ("Coq theorems about the executable Gallina model coq/Model/TessCor
               "corners are all trimmed contributes nothing; every vertex of every triangle emitted for a cell lies within the cell enlarged by the "
               "snapping tolerance - so kept and omitted regions differ from the exact trimmed region only inside cells the trim boundary touches "
               "('within one cell'); the original unconditional Definition is refuted for an unconstrained corner-shift tolerance and replaced by the "
-              "corrected statement.  NOT proved: a loop-level theorem for make_trim_mesh with its renumbering; spline trims (sampled to polylines), "
+              "corrected statement.  Whole trimmed mesh (round 3, Proofs/TrimMesh.v, all sizes / spacings / trims): make_trim_mesh is the concatenation of its per-cell calls (so the cell theorems apply to every triangle of the result), triangles reference returned vertices only, every returned vertex is used, vertex ids are 0..V-1 after fix_numbering (grid vertices first in row-major order, created vertices after), every kept triangle lies within its cell enlarged by the tolerance and its centre is untrimmed, an untouched untrimmed cell contributes exactly its two plain triangles; triangle ids are NOT consecutive in general (refuted with a witness, geomdl behaves the same; the property only speaks of vertex numbering). NOT proved: which part of a touched cell is kept; spline trims (sampled to polylines), "
               "quads and the writers' text/binary encodings are tied by correspondence and checked by the exact oracle.")
 LEVEL_NOTE = ("Trusted: Coq 8.16.1 kernel incl. vm_compute (mesh_valid is a vm_compute proof); standard-library real-number axioms as printed by Print "
               "Assumptions (the nat theorems are closed under the global context); the model is tied to /repo by the sampled correspondence check; "
